@@ -892,6 +892,14 @@ class Executor:
         ref = self.alloc(st, 'dict', Obj('dict', vals=vals, has=has, pending=pend, count=None))
         return sv_ref(ref, 'dict')
 
+    def e_Set(self, e, st, module):
+        outs = []
+        for k, s, vals in self.eval_seq(e.elts, st, module):
+            if k != 'ok':
+                outs.append((k, s, vals)); continue
+            outs += self.prim(s, 'set_of', [SV('tuple', vals)])
+        return outs
+
     def e_JoinedStr(self, e, st, module):
         # f-strings: an uninterpreted text function of the formatted values (pure, total: repr/str of values is assumed not to raise)
         exprs = [v.value for v in e.values if isinstance(v, ast.FormattedValue)]
